@@ -47,7 +47,7 @@ def min_version(prog):
     need = {
         "assert": 3, "pushint": 3, "dig": 3, "swap": 3, "select": 3, "gtxns": 3, "pushbytes": 3,
         "callsub": 4, "retsub": 4, "cover": 5, "uncover": 5, "switch": 8, "match": 8,
-        "bury": 8, "popn": 8, "dupn": 8, "log": 5,
+        "bury": 8, "popn": 8, "dupn": 8, "log": 5, "gtxnsa": 3, "gtxnas": 5, "gtxnsas": 5,
     }
     labels_seen = set()
     for ins in prog:
